@@ -27,7 +27,16 @@ def optable(ctx):
 
 
 def _constructs_overflow(prog, f, bb):
-    return (ERR, "IntOverflow") in ops.block_constructs(prog, f, bb)
+    if (ERR, "IntOverflow") in ops.block_constructs(prog, f, bb):
+        return True
+    # a constructor helper (`Error::int_overflow(op, a, b)`) called here
+    c = f.call_at(bb)
+    if c is not None and not c.is_ptr:
+        g = prog.fns.get(c.res)
+        if g is not None and g.full and not g.is_closure and not g.generated and not g.from_expansion \
+                and g.impl_trait is None and g.path != f.path:
+            return (ERR, "IntOverflow") in ops.constructs_deep(prog, g)
+    return False
 
 
 def _has_int_value(f, bb):
